@@ -311,7 +311,7 @@ func init() {
 			runs = []*TLCRun{{Module: "Totality", Cfg: "Totality_bin.cfg"}, {Module: "Totality", Cfg: "Totality_un.cfg"},
 				{Module: "Totality", Cfg: "Totality_lib2.cfg"}, {Module: "Totality", Cfg: "Totality_lib3.cfg"},
 				{Module: "Totality", Cfg: "Totality_src3.cfg"},
-				{Module: "Totality", Cfg: "Totality_src4.cfg", Simulate: "num=300000", Depth: 3, Seed: rc.Seed + 2, Workers: 1}}
+				{Module: "Totality", Cfg: "Totality_src4.cfg", Simulate: "num=150000", Depth: 8, Seed: rc.Seed + 2, Workers: 1}}
 		}
 		for _, r := range runs {
 			r.Timeout = 60 * 60e9
